@@ -168,11 +168,11 @@ theorem compMerge_dictOther (rec : Node → Node → Except Err (Node × Bool)) 
     (hsf : flagsPlain sf = true) (hsk : sk = .dict ∨ sk = .list)
     (hof : flagsPlain of = true) (hd : of.iDel = none) :
     compMerge rec sf sk scs (.comp of .dict ocs) =
-      match mergeLoop rec sf sk scs ocs with
+      match mergeLoop rec sf sk [] scs ocs with
       | .error e => .error e
       | .ok scs' => .ok (propagate (.comp (replaceSelfFlags sf of) sk scs'), true) := by
   simp only [compMerge, eDel_dict_live hof hd]
-  cases mergeLoop rec sf sk scs ocs with
+  cases mergeLoop rec sf sk [] scs ocs with
   | error e => rfl
   | ok scs' =>
     simp only [finishMerge, Node.flags, hasPrio_plain hof hsf, if_true]
@@ -203,7 +203,7 @@ theorem replaceChild_dict (k : Key) (v : Node) (acc : List (Key × Node)) :
 theorem mergeStep_dict {d : Nat} {rec srec} (H : RecOK d rec srec) {sf : Flags} (hsf : flagsPlain sf = true)
     {acc : List (Key × Node)} (hacc : plainTList acc = true) {k : Key} {v : Node}
     (hv : plainO v = true) (hdv : v.depth ≤ d) :
-    LRelD (mergeStep rec sf .dict acc (k, v))
+    LRelD (mergeStep rec sf .dict [] acc (k, v))
       (match alookup k (nativeList acc) with
        | none => .ok (nativeList acc ++ [(k, native v)])
        | some va =>
@@ -251,7 +251,7 @@ theorem mergeStep_dict {d : Nat} {rec srec} (H : RecOK d rec srec) {sf : Flags} 
 theorem mergeLoop_dict {d : Nat} {rec srec} (H : RecOK d rec srec) {sf : Flags} (hsf : flagsPlain sf = true) :
     ∀ (ocs acc : List (Key × Node)), plainTList acc = true → plainTList ocs = true →
       dictsLiveList ocs = true → depthList ocs ≤ d →
-      LRelD (mergeLoop rec sf .dict acc ocs) (updF.updDict srec (nativeList acc) (nativeList ocs))
+      LRelD (mergeLoop rec sf .dict [] acc ocs) (updF.updDict srec (nativeList acc) (nativeList ocs))
   | [], acc, hacc, _, _, _ => by simp [mergeLoop, nativeList, updF.updDict, LRelD, hacc]
   | (k, v) :: rest, acc, hacc, ho, hl, hd => by
     have ho' : plainT v = true ∧ plainTList rest = true := by simpa [plainTList] using ho
@@ -261,7 +261,7 @@ theorem mergeLoop_dict {d : Nat} {rec srec} (H : RecOK d rec srec) {sf : Flags} 
     have hv : plainO v = true := (plainO_iff v).2 ⟨ho'.1, hl'.1⟩
     have hstep := mergeStep_dict H hsf hacc (k := k) hv hd'.1
     simp only [mergeLoop, nativeList, updF.updDict]
-    cases hm : mergeStep rec sf .dict acc (k, v) with
+    cases hm : mergeStep rec sf .dict [] acc (k, v) with
     | error e =>
       rw [hm] at hstep
       cases hla : alookup k (nativeList acc) with
